@@ -561,6 +561,7 @@ void World::opBinary(const Step &s)
     }
     res->tab = out;
     res->oracle = oracle;
+    if (FR.kind() == FK_EVT || FA.kind() == FK_EVT || FB.kind() == FK_EVT) res->fexact = false;
     finishResult(s, res, cur_family);
 }
 
@@ -628,6 +629,7 @@ void World::opCopy(const Step &s)
     if (ri < 0 || !sameOrder(A.forest, ri)) { note(OC_SKIP); return; }
     ForRT &FR = forests[ri];
     EdgeSlot* res = newEdge(s.client, ri);
+    res->fexact = A.fexact && A.tab.pow2();
     desc << en(*res) << " = COPY(" << en(A) << " from " << fn(A.forest) << ") into " << fn(ri) << ((s.a[2] & 1) ? " and back" : "");
     if (tracing) { fprintf(stderr, "   doing: %s\n", desc.str().c_str()); fflush(stderr); }
     res->tab = A.tab;
@@ -697,6 +699,7 @@ void World::opCopyEdge(const Step &s)
     res->forest = A.forest;
     res->tab = A.tab;
     res->oracle = A.oracle;
+    res->fexact = A.fexact;
     res->e = new dd_edge(*A.e);
     res->born = uint64_t(cur_step);
     res->id = freshEdgeId();
@@ -725,6 +728,7 @@ void World::opAssign(const Step &s)
     T.forest = S.forest;
     T.tab = S.tab;
     T.oracle = S.oracle;
+    T.fexact = S.fexact;
     note(OC_OK, T.tab.hash());
 }
 
